@@ -25,7 +25,8 @@ REQUIRED_FEATURES = ["inputs:mixed-int-float-dtypes", "inputs:has-empty", "input
                      "agg:mean", "assoc", "refuse:binsize", "refuse:chromsizes", "refuse:variable-bins",
                      "refuse:storage-mode", "overflow:int32", "overflow:uint16", "overflow:fits-with-dtypes-override",
                      "mode:square", "mode:symm", "mergebuf:1", "inputs:all-empty", "via:cli-merge",
-                     "via:cli-merge:field-dtype+agg", "inputs:legacy-without-storage-mode-attr:some"]
+                     "via:cli-merge:field-dtype+agg", "inputs:legacy-without-storage-mode-attr:some", "agg:count", "agg:range",
+                     "overflow:requested-dtype-of-other-signedness:does-not-fit", "overflow:requested-dtype-of-other-signedness:fits"]
 
 
 def plan(tier, seed):
@@ -51,6 +52,7 @@ def run(ctx, shard):
         run_refusals(ctx, shard)
     elif k == "overflow":
         run_overflow(ctx, shard)
+        run_signedness(ctx, {"cases": max(16, shard["cases"] // 2)})
 
 
 def gen_inputs(rng, n, symm, special):
@@ -247,6 +249,31 @@ def run_merge_case(ctx, shard, i, rng):
                     okv = got == [want[kk] for kk in wk]
                 c.check(okv, f"merge-values-differ:{agg}", f"merged column {col} != element-wise {agg}",
                         lambda: {"got": got[:30], "want": [want[kk] for kk in wk][:30]})
+    # aggregates that are not the identity on a single record (any function pandas' groupby.agg accepts is allowed):
+    # number of contributing records, and the range max-min, for every buffer size incl. epochs with one contributor
+    for agg in ("count", "range"):
+        cid = f"m:{shard['sub']}:{i}:agg-{agg}"
+        if not ctx.want(cid):
+            continue
+        out = os.path.join(d, f"agg_{agg}.cool")
+        with ctx.case(cid, dict(base_desc, agg=agg)) as c:
+            c.feature(f"agg:{agg}")
+            fn = "count" if agg == "count" else (lambda x: x.max() - x.min())
+            mb = int([1, 2, 3, 10**7][int(rng.integers(4))])
+            cooler.merge_coolers(out, uris, mergebuf=mb, agg={"count": fn},
+                                 dtypes={"count": np.float64 if mixed and agg == "range" else np.int64})
+            recs = {}
+            for S in Ps:
+                for kk, v in S.items():
+                    recs.setdefault(kk, []).append(v)
+            want = {kk: (len(v) if agg == "count" else max(v) - min(v)) for kk, v in recs.items()}
+            keys, cols = read_pixels_raw(out, "/", ("count",))
+            wk = sorted(want)
+            if c.check(keys == wk, "merge-pixel-set-differs", f"pixel set under agg={agg} differs"):
+                got = [float(x) for x in cols["count"].tolist()]
+                c.check(got == [float(want[kk]) for kk in wk], f"merge-values-differ:{agg}",
+                        f"merged column count != per-pixel {agg} of the inputs' records (mergebuf={mb}, {k} inputs)",
+                        lambda: {"got": got[:30], "want": [want[kk] for kk in wk][:30]})
     # a fractional aggregate does not fit an integer column: must raise or be stored exactly
     cid = f"m:{shard['sub']}:{i}:agg-mean-int"
     if ctx.want(cid) and k >= 2 and not mixed:
@@ -421,3 +448,62 @@ def run_overflow(ctx, shard):
                 c.feature("overflow:raised")
             c.nontrivial("overflow", np.dtype(dt).name, tuple(vals), override)
             ctx.sample(desc | {"outcome": raised or "stored exactly"}, limit=6)
+
+
+def run_signedness(ctx, shard):
+    """Requested output type of the OTHER signedness (same or larger width than the inputs): an aggregate outside its
+    range must raise or be stored exactly - never be clipped silently."""
+    import cooler
+
+    rng = ctx.rng("signedness")
+    combos = [(np.uint16, np.int16, [30000, 20000]), (np.uint16, np.int16, [20000, 9000]), (np.int32, np.uint32, [-7, 3]),
+              (np.int32, np.uint64, [-9, 2, 1]), (np.int16, np.uint16, [5, -3, 4]), (np.uint32, np.int32, [2**31 - 5, 9]),
+              (np.int8, np.uint8, [-1, -1]), (np.uint8, np.int8, [100, 100])]
+    for i in range(shard["cases"]):
+        cid = f"signedness:{i}"
+        if not ctx.want(cid):
+            continue
+        idt, odt, vals = combos[i % len(combos)]
+        d = ctx.newdir()
+        bt = [["a", [0, 10, 20, 30]], ["b", [0, 10]]]
+        hot = (int(rng.integers(0, 2)), int(rng.integers(2, 4)))
+        uris, Ps = [], []
+        for j, v in enumerate(vals):
+            P = gen.gen_pixels(rng, 4, True, "sparse70", vmax=5)
+            P[hot] = v
+            Ps.append(P)
+            uri = os.path.join(d, f"in{j}.cool")
+            make_cooler(uri, bt, P, count_dtype=idt)
+            uris.append(uri)
+        want = model.fold((kv for P in Ps for kv in sorted(P.items())))
+        io = np.iinfo(odt)
+        fits = all(io.min <= v <= io.max for v in want.values())
+        out = os.path.join(d, "out.cool")
+        desc = {"input_dtype": np.dtype(idt).name, "requested_dtype": np.dtype(odt).name, "values": vals,
+                "exact_sum": want[hot], "fits": fits}
+        with ctx.case(cid, desc) as c:
+            c.feature("overflow:requested-dtype-of-other-signedness" + (":fits" if fits else ":does-not-fit"))
+            raised = None
+            try:
+                if i % 2:
+                    from click.testing import CliRunner
+                    from cooler.cli import cli
+                    r = CliRunner().invoke(cli, ["merge", out] + uris + ["--field", f"count:dtype={np.dtype(odt).name}"])
+                    if r.exit_code != 0:
+                        raised = f"{type(r.exception).__name__}: {str(r.exception)[:100]}"
+                else:
+                    cooler.merge_coolers(out, uris, mergebuf=int([2, 10**7][i % 2]), dtypes={"count": odt})
+            except Exception as e:  # noqa
+                raised = f"{type(e).__name__}: {str(e)[:120]}"
+            if raised is None:
+                keys, cols = read_pixels_raw(out, "/", ("count",))
+                got = dict(zip(keys, [int(x) for x in cols["count"].tolist()]))
+                c.check(got == want and list(keys) == sorted(want), "overflow-stored-value-differs:silent:other-signedness",
+                        f"{np.dtype(idt).name} inputs {vals} merged into a requested {np.dtype(odt).name} column: exact "
+                        f"aggregate {want[hot]}, stored {got.get(hot)} without error",
+                        {"got_hot": got.get(hot), "want_hot": want[hot]})
+            else:
+                c.check(not fits, "overflow-false-refusal:other-signedness",
+                        f"merge raised {raised} although every exact aggregate fits {np.dtype(odt).name}")
+                c.feature("overflow:raised")
+            c.nontrivial("signedness", np.dtype(idt).name, np.dtype(odt).name, tuple(vals))
